@@ -4,6 +4,7 @@ import EupsModel.Lemmas.PathAlgMulti
 import EupsModel.Lemmas.PathAlgRef
 import EupsModel.Lemmas.PathAct
 import EupsModel.Lemmas.PathActEups
+import EupsModel.Lemmas.PathAlgRun
 /-! C12 — path-variable commands obey list algebra.  Property theorems only (helper lemmas live in
 `Lemmas/PathAlg.lean`, the model in `Model/PathAlg.lean`). -/
 namespace EupsModel.C12
@@ -489,6 +490,47 @@ theorem expand_arg_plain (p : ProdInfo) (ep : Option Str) (s : Str) (h : 36 ∉ 
   expandArg_no_dollar p ep s h
 
 end EupsPath
+
+
+/-! ## a whole table on one variable, at string level (`Lemmas/PathAlgRun.lean`) -/
+
+/-- The table's envPrepend/envAppend lines on one variable, run through the string-manipulating action one after the
+other, compute the list-level normal form `setupAll` on the variable's value and touch no other variable. -/
+theorem table_run_string_level (c : Nat) (var : Str) (acts : List (Bool × Str)) (oldl : List Str) (env : Env)
+    (hgood : ∀ a ∈ acts, GoodPiece c a.2) (hold : ∀ e ∈ oldl, OldPiece c e)
+    (henv : (env.get var).getD [] = join [c] oldl) (hne : acts ≠ []) :
+    ∃ env', pathRun c var true acts env = .ok env'
+      ∧ env'.get var = some (join [c] (setupAll acts oldl))
+      ∧ ∀ k, k ≠ var → env'.get k = env.get k :=
+  pathRun_setup c var acts oldl env hgood hold henv hne
+
+/-- String-level inverse (the path-variable half of C02): setup of the table's lines, then the same lines in unsetup
+mode, leaves the variable with its prior elements (duplicate-free reading) and every other variable as it was … -/
+theorem table_roundtrip_string_level (c : Nat) (var : Str) (acts : List (Bool × Str)) (oldl : List Str) (env : Env)
+    (hgood : ∀ a ∈ acts, GoodPiece c a.2) (hold : ∀ e ∈ oldl, OldPiece c e)
+    (henv : (env.get var).getD [] = join [c] oldl) (hne : acts ≠ [])
+    (hfresh : ∀ a ∈ acts, a.2 ∉ oldl) :
+    ∃ env1 env2, pathRun c var true acts env = .ok env1 ∧ pathRun c var false acts env1 = .ok env2
+      ∧ env2.get var = some (join [c] (uniq oldl))
+      ∧ ∀ k, k ≠ var → env2.get k = env.get k :=
+  pathRun_roundtrip c var acts oldl env hgood hold henv hne hfresh
+
+/-- … and when the prior value had no duplicate the whole environment is back, string for string. -/
+theorem table_roundtrip_restores_environment (c : Nat) (var : Str) (acts : List (Bool × Str)) (oldl : List Str)
+    (env : Env) (hgood : ∀ a ∈ acts, GoodPiece c a.2) (hold : ∀ e ∈ oldl, OldPiece c e)
+    (henv : env.get var = some (join [c] oldl)) (hne : acts ≠ [])
+    (hfresh : ∀ a ∈ acts, a.2 ∉ oldl) (hnd : oldl.Nodup) :
+    ∃ env1 env2, pathRun c var true acts env = .ok env1 ∧ pathRun c var false acts env1 = .ok env2
+      ∧ ∀ k, env2.get k = env.get k :=
+  pathRun_roundtrip_nodup c var acts oldl env hgood hold henv hne hfresh hnd
+
+/-- Repeated setup of the table changes nothing any more (string level, every variable). -/
+theorem table_run_idempotent (c : Nat) (var : Str) (acts : List (Bool × Str)) (oldl : List Str) (env : Env)
+    (hgood : ∀ a ∈ acts, GoodPiece c a.2) (hold : ∀ e ∈ oldl, OldPiece c e)
+    (henv : (env.get var).getD [] = join [c] oldl) :
+    ∃ env1 env2, pathRun c var true acts env = .ok env1 ∧ pathRun c var true acts env1 = .ok env2
+      ∧ ∀ k, env2.get k = env1.get k :=
+  pathRun_twice c var acts oldl env hgood hold henv
 
 /-! ## delimiters of several characters, values of several elements (`Lemmas/PathAlgMulti.lean`) -/
 
